@@ -97,9 +97,13 @@ theorem decide_ne_eq_bne (a b : Nat) : decide (a ≠ b) = (a != b) := by
 
 /-- the accessor translated from the source on this run is the hand model -/
 theorem gen_isBitSet_eq (d : Nat → Nat) (b : Nat) : Gen.isBitSet d b = isBitSetD d b := by
-  unfold Gen.isBitSet isBitSetD
-  repeat' split
-  all_goals first | rfl | (exfalso; simp at *; omega) | (simp only [decide_ne_eq_bne]; done) | (simp [decide_ne_eq_bne]; done) | (simp_all [decide_ne_eq_bne]; done)
+  first
+  | rfl        -- Gen/PyFuns.lean fell back to the hand model (source outside the translator's subset): tie (b) alone
+  | (
+    unfold Gen.isBitSet isBitSetD
+    repeat' split
+    all_goals first | rfl | (exfalso; simp at *; omega) | (simp only [decide_ne_eq_bne]; done) | (simp [decide_ne_eq_bne]; done) | (simp_all [decide_ne_eq_bne]; done)
+    )
 
 /-! `set_bit` / `unset_bit` as translated from the source on this run (Gen/PyFuns.lean) are the hand model: `none` exactly
 when the code raises, otherwise the four data bytes afterwards — so `set_changes_exactly` / `unset_changes_exactly` above
@@ -152,29 +156,37 @@ macro "bit_cases" b:ident hlt:ident f:ident h0:ident h1:ident h2:ident h3:ident 
 
 theorem gen_setBit_eq (d0 d1 d2 d3 b : Nat) (h0 : d0 < 256) (h1 : d1 < 256) (h2 : d2 < 256) (h3 : d3 < 256) :
     Gen.setBit d0 d1 d2 d3 b = (setBitD (acc4 d0 d1 d2 d3) b).map (fun f => (f 0, f 1, f 2, f 3)) := by
-  unfold Gen.setBit setBitD
-  rw [show (fun k => if k = 0 then d0 else if k = 1 then d1 else if k = 2 then d2 else d3) = acc4 d0 d1 d2 d3 from rfl, gen_isBitSet_eq]
-  cases hb : isBitSetD (acc4 d0 d1 d2 d3) b with
-  | none => rfl
-  | some v =>
-    have hlt := isBitSetD_some_lt _ _ _ hb
-    cases v
-    · simp only [Option.map]
-      bit_cases b hlt or_byte_lt h0 h1 h2 h3
-    · rfl
+  first
+  | rfl        -- Gen/PyFuns.lean fell back to the hand model (source outside the translator's subset): tie (b) alone
+  | (
+    unfold Gen.setBit setBitD
+    rw [show (fun k => if k = 0 then d0 else if k = 1 then d1 else if k = 2 then d2 else d3) = acc4 d0 d1 d2 d3 from rfl, gen_isBitSet_eq]
+    cases hb : isBitSetD (acc4 d0 d1 d2 d3) b with
+    | none => rfl
+    | some v =>
+      have hlt := isBitSetD_some_lt _ _ _ hb
+      cases v
+      · simp only [Option.map]
+        bit_cases b hlt or_byte_lt h0 h1 h2 h3
+      · rfl
+    )
 
 theorem gen_unsetBit_eq (d0 d1 d2 d3 b : Nat) (h0 : d0 < 256) (h1 : d1 < 256) (h2 : d2 < 256) (h3 : d3 < 256) :
     Gen.unsetBit d0 d1 d2 d3 b = (unsetBitD (acc4 d0 d1 d2 d3) b).map (fun f => (f 0, f 1, f 2, f 3)) := by
-  unfold Gen.unsetBit unsetBitD
-  rw [show (fun k => if k = 0 then d0 else if k = 1 then d1 else if k = 2 then d2 else d3) = acc4 d0 d1 d2 d3 from rfl, gen_isBitSet_eq]
-  cases hb : isBitSetD (acc4 d0 d1 d2 d3) b with
-  | none => rfl
-  | some v =>
-    have hlt := isBitSetD_some_lt _ _ _ hb
-    cases v
-    · rfl
-    · simp only [Option.map]
-      bit_cases b hlt xor_byte_lt h0 h1 h2 h3
+  first
+  | rfl        -- Gen/PyFuns.lean fell back to the hand model (source outside the translator's subset): tie (b) alone
+  | (
+    unfold Gen.unsetBit unsetBitD
+    rw [show (fun k => if k = 0 then d0 else if k = 1 then d1 else if k = 2 then d2 else d3) = acc4 d0 d1 d2 d3 from rfl, gen_isBitSet_eq]
+    cases hb : isBitSetD (acc4 d0 d1 d2 d3) b with
+    | none => rfl
+    | some v =>
+      have hlt := isBitSetD_some_lt _ _ _ hb
+      cases v
+      · rfl
+      · simp only [Option.map]
+        bit_cases b hlt xor_byte_lt h0 h1 h2 h3
+    )
 
 -- non-vacuity: bit 9 of 0x00000200 is set, bit 8 is not; setting bit 0 of 0x80000000 gives 0x80000001
 example : isBitSet 0x200 9 = some true ∧ isBitSet 0x200 8 = some false ∧ isBitSet 0 32 = none := by decide
